@@ -38,7 +38,7 @@ def run(ctx):
     known_scope = ("simk18", c14.cfg_text("{1, 7, 11}", 9, 1, styles='{"plain", "double"}', coll='{"block"}', decor=1000,
                                           indents="{1, 2, 4}", breaks='{"LF", "CR"}', flags=c14.ALL_FLAGS, avoid="{}", sim=True),
                    "num=%d" % (1500 if q else 10000))
-    path, total = c14.generate(ctx, q, '{"V1", "V2"}', extra=[known_scope])
+    path, total = c14.generate(ctx, q, '{"V1", "V2", "V3"}', extra=[known_scope])
     b = vlib.harness_bin("c14")
     mp = ctx.path("mismatches.ndjson")
     rc, out, wall = vlib.sh([b, "replay", path, mp, "validate=1", "samples=%d" % (40 if q else 200)], timeout=3000)
